@@ -178,4 +178,11 @@ def c18_d(ctx: Ctx):
     return out
 
 
-RULES = [c18_a, c18_b, c18_c, c18_d]
+@rule("C18-e")
+def c18_e(ctx: Ctx):
+    """subset=None means all jobs; an empty subset yields the empty schema."""
+    from .lints import sentinel_discipline
+    return sentinel_discipline(ctx, "C18-e", [("signac.project:Project.detect_schema", "subset", "an empty selection (a cursor that matches nothing) must give the empty schema, not the schema of the whole project")])
+
+
+RULES = [c18_a, c18_b, c18_c, c18_d, c18_e]
